@@ -177,6 +177,7 @@ def run(fb, rep, tier):
     # protocol thread's next search set-up): decided by the completion-flag typestate shared with C10.7
     from . import C10
     C10.completion_flag(fb, rep, 'C09.4')
+    c5_children_walk(fb, rep)
     rep.extra['thread_roles'] = {k: {'roots': [fb.kname(x) for x in roots[k]], 'reachable_functions': len(v)} for k, v in reach.items()}
     n_rows = 0
     for cls, rows in sorted(TABLE.items()):
@@ -554,3 +555,38 @@ def c6_pool_and_scheduler(fb, rep):
             if name.endswith('::startWorkers') or name.endswith('::addWorker'):
                 continue   # set-up before the worker threads exist
             rep.ob(clause, 'K6 lock discipline', '%s: every access of SearchScheduler::%s holds the scheduler mutex' % (name, fl), all(oks), '', '%d accesses' % len(oks), name)
+
+
+# ----------------------------------------------------------------------------- .5
+
+def c5_children_walk(fb, rep):
+    """HB-protocol row of Communicator::children made checkable.  The owning thread walks `children` in poll() without the
+    mutex; removeChild() erases under the mutex (C09.1).  A parent destroys a child only after the child's owner delivered
+    its acknowledgement, and the owner makes one more pass through poll() that no message orders.  The only edge that
+    orders that last walk before the erase is the owner's own unlock at the end of the locked command-drain loop.  So in
+    poll() every access to `children` must be followed, on every path to the exit, by an acquisition of the
+    communicator's mutex; an unlocked walk after the drain loop races with removeChild / ~Communicator."""
+    clause = 'C09.6'
+    f = fb.find1('Communicator::poll')
+    if rep.need(clause, f, 'Communicator::poll') is None:
+        return
+
+    def is_lock(e):
+        if e is None or e.get('k') != 'decl':
+            return False
+        for v in e.get('vars', []):
+            t = (v.get('ct') or v.get('t') or '')
+            init = v.get('init')
+            if t.replace('const ', '').startswith(('std::lock_guard', 'std::unique_lock', 'std::scoped_lock')) and isinstance(init, dict) and init.get('args') and ap(init['args'][0]) == 'this.mutex':
+                return True
+        return False
+    acc = []
+    for b, i, e in f.events():
+        if any(n.get('k') == 'mem' and ap(n) == 'this.children' for n in walk(e)):
+            acc.append((b, i, e))
+    rep.floor(clause, 'accesses to children in Communicator::poll', len(acc), 1)
+    locks = [1 for _, _, e in f.events() if is_lock(e)]
+    rep.floor(clause, 'acquisitions of the communicator mutex in poll', len(locks), 1)
+    late = [(b, i, e) for b, i, e in acc if f.path_avoiding((b, i), R.at_exit, is_lock) is not None]
+    rep.ob(clause, 'K2 must-pass-through', 'Communicator::poll: every unlocked access to children is followed by an acquisition of the mutex before poll returns', not late,
+           R.site(f, late[0][2]) if late else f.where, '%d access(es), %d with a lock-free path to the exit' % (len(acc), len(late)), f.sname)
